@@ -450,6 +450,12 @@ int main(int argc, char *argv[])
         output_hex_text(asm_context.list, str, ptr);
         ch = 0;
         ptr = 0;
+
+        // Nothing was assembled into this page: go on with the next one.
+        if (!asm_context.memory.in_use(i))
+        {
+          i |= asm_context.memory.get_page_size() - 1;
+        }
       }
     }
     output_hex_text(asm_context.list, str, ptr);
